@@ -77,6 +77,7 @@ def run_circular_binseg(
     anomaly_scores = np.zeros(starts.size)
     anomaly_starts = np.zeros(starts.size, dtype=np.int64)
     anomaly_ends = np.zeros(starts.size, dtype=np.int64)
+    has_candidates = np.zeros(starts.size, dtype=np.bool_)
     for i, (start, end) in enumerate(zip(starts, ends)):
         anomaly_start_candidates, anomaly_end_candidates = make_anomaly_intervals(
             start, end, min_segment_length
@@ -95,13 +96,17 @@ def run_circular_binseg(
         scores = score.evaluate(intervals)
         agg_scores = np.sum(scores, axis=1)
         argmax = np.argmax(agg_scores)
+        has_candidates[i] = True
         anomaly_scores[i] = agg_scores[argmax]
         anomaly_starts[i] = anomaly_start_candidates[argmax]
         anomaly_ends[i] = anomaly_end_candidates[argmax]
 
     maximizers = np.column_stack((anomaly_starts, anomaly_ends))
+    # Intervals without any anomaly candidate keep the score 0, but can never be
+    # selected, also not when the threshold is negative.
+    selectable_scores = np.where(has_candidates, anomaly_scores, -np.inf)
     anomalies = greedy_anomaly_selection(
-        anomaly_scores, anomaly_starts, anomaly_ends, starts, ends, threshold
+        selectable_scores, anomaly_starts, anomaly_ends, starts, ends, threshold
     )
     return anomalies, anomaly_scores, maximizers, starts, ends
 
